@@ -146,11 +146,12 @@ class Assembler:
         return self.files[rel]
 
     # ------------------------------------------------------------------
-    def assemble(self, unit_rel, defines=None, vacuity=False, degrade=None):
+    def assemble(self, unit_rel, defines=None, vacuity=False, degrade=None, extra_items=None):
         """Returns dict(text, linemap, fns, rewrites, items, hashes, defines)."""
         self.defines = dict(defines or {})
         self.vacuity = vacuity
         self.degrade = set(degrade or [])
+        self.extra_items = list(extra_items or [])
         self.chunks = []
         self.callee = 0
         self.meta = dict(fns={}, callees={}, degraded={}, rewrites=[], items=[], hashes={}, defines={}, unit=unit_rel)
@@ -205,6 +206,13 @@ class Assembler:
                 arg = d[1] if len(d) > 1 else ''
                 if cmd == 'include':
                     a = arg.split()
+                    if a[0] == 'prelude/tail.rs' and self.extra_items:
+                        # constants the repository introduced after the contracts were written and that an extracted function now names:
+                        # copied verbatim (a constant is transparent to the verifier), recorded as a rewrite of kind auto-imported-const
+                        for (f_, kind_, name_) in self.extra_items:
+                            self.meta['rewrites'].append(dict(kind='auto-imported-const', where='%s::%s' % (f_, name_)))
+                            self._item('(auto)', 0, '%s %s %s' % (f_, kind_, name_), [])
+                        self.extra_items = []
                     if len(a) == 3 and a[1] == 'as' and a[2] == 'callee':
                         # contracts proved in their home unit; here only the contract is visible (modular verification)
                         self.callee += 1
